@@ -1104,7 +1104,12 @@ R_BULK_CPK = {    # regression input: bulk delete of parents with a composite pr
     'prog': [['create', 0, []], ['flush'], ['create', 0, []], ['flush'], ['create', 1, [[[0, True], 0]]], ['flush'], ['create', 1, [[[0, True], 1]]], ['flush'],
              ['create', 2, [[[1, True], 0]]], ['flush'], ['create', 2, [[[1, True], 1]]], ['flush']],
     'bulk': [[0, [0]]]}
-WITNESSES = [('stub-delete-stale-collection', W_STUB), ('cascade-cycle-one-to-one', W_CYCLE_O2O), ('cascade-cycle-self-parent', W_CYCLE_SELF), ('required-one-to-one-cascade', W_REQ_O2O)]
+W_REQ_INSIDE = {  # K cascades (one-to-one) to the P it also references through a Required attribute of a relationship without cascade
+    'schema': {'nent': 2, 'rels': [{'kind': 'm2o', 'sym': False, 'a': S(0, coll=True, casc=False), 'b': S(1, req=True)},
+                                   {'kind': 'o2o', 'sym': False, 'a': S(0), 'b': S(1, casc=True)}]},
+    'prog': [['create', 0, [[[1, False], None]]], ['flush'], ['create', 1, [[[0, True], 0], [[1, True], 0]]], ['flush']],
+    'plan': [['obj', 1]]}
+WITNESSES = [('required-reference-inside-cascade-closure', W_REQ_INSIDE), ('stub-delete-stale-collection', W_STUB), ('cascade-cycle-one-to-one', W_CYCLE_O2O), ('cascade-cycle-self-parent', W_CYCLE_SELF), ('required-one-to-one-cascade', W_REQ_O2O)]
 
 
 def polymorphic_stub_witness(ctx):
